@@ -4,11 +4,11 @@ from __future__ import annotations
 from fractions import Fraction
 
 from sa.report import Cx
-from sa.walker import WalkOptions
+from sa.walker import WalkOptions, _Ctx, State
 from sa.terms import (Sym, Attr, Sub, App, Num, Const, Fresh, TupleT, BoolT, IfT, ACmp, f_and, f_or, f_not, implies, compare, mk_cmp, neg,
                       atoms_of, subst_atoms, subst_formula, eval_formula, FTrue, FFalse, FConst)
 from .common import CORE, BATCH, check_atomic, strip_versions
-from .batchcommon import built_list_ok, partial_binding, check_driver_loop, check_no_swallow, arms
+from .batchcommon import result_pipeline, built_list_ok, partial_binding, check_driver_loop, check_no_swallow, arms
 
 PID = 'C16'
 EXPLANATION = (
@@ -33,6 +33,9 @@ RUN = BATCH + '_run_model_for_search'
 SCORE = BATCH + '_score_model_for_search'
 INF = [App('float', (Const('inf'),)), Sym('math.inf'), Sym('numpy.inf'), App('float', (Const('Infinity'),))]
 NEG_INF = [App('float', (Const('-inf'),)), Sym('-math.inf')] + [neg(t) for t in INF]
+
+# the work list is recognised as the call ParameterList.build(); its body is C14's subject
+NOINL = frozenset({BATCH + 'ParameterList.build'})
 
 
 def run(cx: Cx):
@@ -157,14 +160,14 @@ def _selection(cx: Cx):
                 pos = implies(FL, atom) is None
                 return minimise if pos else (not minimise)
             return None
-        paths = [p for p in cx.walker.paths(fn, WalkOptions(unroll=2, callee_raises=False, axioms=ax, domain='real'))
+        paths = [p for p in cx.walker.paths(fn, WalkOptions(unroll=2, callee_raises=False, no_inline=NOINL, axioms=ax, domain='real'))
                  if p.end == 'return' and implies(p.cond, mk_cmp(Sym('processes'), '==', Num(Fraction(1)))) is None]
         n_iter = 0
         for p in paths:
             evs = p.events
             # the selection loop = the last loop on the path
             loops = [e for e in evs if e.kind == 'loop']
-            if len(loops) < 2:
+            if not loops:
                 continue
             sel = loops[-1]
             RES = p.last.data['value'].items[1] if isinstance(p.last.data.get('value'), TupleT) and len(p.last.data['value'].items) == 2 else None
@@ -182,9 +185,18 @@ def _selection(cx: Cx):
                 if e.kind == 'assign':
                     env[e.data['name']] = e.data['value']
             bounds = [evs.index(e) for e in iters] + [evs.index(ends[-1])]
+            # a hand-written position counter: 0 before the loop, incremented exactly once in every iteration
+            counters = []
+            for cname, cv in env.items():
+                if cv == Num(Fraction(0)) and iters and all(
+                        [e.data.get('value') for e in evs[bounds[k]:bounds[k + 1]] if e.kind == 'assign' and e.data.get('name') == cname]
+                        == [Num(Fraction(k + 1))] for k in range(len(iters))):
+                    counters.append(cname)
             for k, it_ev in enumerate(iters):
                 info = it_ev.data['info']
-                if info.get('kind') == 'enumerate' and strip_versions(info.get('seq')) == RES and info.get('start') == Num(Fraction(0)):
+                if info.get('kind') == 'iter' and info.get('var') is not None and strip_versions(sel.data.get('iter')) == RES and counters:
+                    i_k, res_k = Num(Fraction(k)), info['var']
+                elif info.get('kind') == 'enumerate' and strip_versions(info.get('seq')) == RES and info.get('start') == Num(Fraction(0)):
                     i_k, res_k = info['index'], Sub(RES, info['index'])
                 elif info.get('kind') == 'range' and info.get('lo') == Num(Fraction(0)) and info.get('hi') == App('len', (RES,)):
                     i_k, res_k = info['index'], Sub(RES, info['index'])
@@ -207,8 +219,9 @@ def _selection(cx: Cx):
                            (e.kind == 'assign' and e.data.get('value') in (i_k, score_k))]
                 F = f_and(*[c.data['formula'] for c in conds])
                 F = subst_atoms(F, lambda a: (FConst(ax({}, a)) if ax({}, a) is not None else None))
-                upd_target = [e for e in assigns if e.data.get('value') == score_k]
-                upd_index = [e for e in assigns if e.data.get('value') == i_k]
+                # running variables exist before the loop; names first bound inside an iteration are temporaries
+                upd_target = [e for e in assigns if e.data.get('value') == score_k and e.data.get('name') in env]
+                upd_index = [e for e in assigns if e.data.get('value') == i_k and e.data.get('name') in env]
                 # which variables play target / index
                 tvars = {e.data['name'] for e in upd_target}
                 if not hasattr(_selection, '_names'):
@@ -218,7 +231,7 @@ def _selection(cx: Cx):
                 if target_var is None:
                     for e in evs:
                         if e.kind == 'assign' and e.loops and e.loops[0] == sel.node.lineno and isinstance(e.data.get('value'), App) \
-                                and e.data['value'].fn == 'call:' + SCORE:
+                                and e.data['value'].fn == 'call:' + SCORE and e.data.get('name') in env:
                             target_var = e.data['name']
                 if target_var is None:
                     # no iteration on this path updates: compare against every pre-loop candidate
@@ -271,7 +284,7 @@ def _arms(cx: Cx):
     fn = cx.fn(GS)
     runf = cx.fn(RUN)
     params = Sym('parameters')
-    paths = [p for p in cx.walker.paths(fn, WalkOptions(unroll=1, callee_raises=False)) if p.end == 'return']
+    paths = [p for p in cx.walker.paths(fn, WalkOptions(unroll=1, callee_raises=False, no_inline=NOINL)) if p.end == 'return']
     serial, pool = arms(cx, fn, paths)
     cx.floor('grid_search serial-arm paths', len(serial), 1)
     cx.floor('grid_search pool-arm paths', len(pool), 1)
@@ -282,59 +295,35 @@ def _arms(cx: Cx):
         if missing not in reported:
             reported.add(missing)
             cx.violation(rule, fn.qualname, missing, msg, where=where, **kw)
+    from .common import _loop_stage_table
+    table = _loop_stage_table(paths)
     for arm, plist in (('serial', serial), ('pool', pool)):
         for p in plist:
-            evs = p.events
-            rm = [e.data.get('result') for e in evs if e.kind == 'call' and e.data.get('callee_name') == 'functools.partial']
-            loops = [e for e in evs if e.kind == 'loop']
-            if len(rm) != 1 or len(loops) < 1:
-                viol('R-SIB', f"{arm}-arm-shape", f"grid_search ({arm} arm): expected one partial and a loop over the combinations", cx.where(fn))
-                continue
-            RM, lp = rm[0], loops[0]
-            it = lp.data.get('iter')
             RES = p.last.data['value'].items[1] if isinstance(p.last.data.get('value'), TupleT) and len(p.last.data['value'].items) == 2 else None
-            iters = [e for e in evs if e.kind == 'iter' and e.node is lp.node]
-            ends = [e for e in evs if e.kind == 'endloop' and e.node is lp.node]
-            if any(e.data.get('how') != 'exhausted' for e in ends):
-                viol('R-SIB', f"{arm}-arm-consumes-every-combination", f"grid_search ({arm} arm) leaves the loop early", cx.where(fn, lp.line))
+            if not isinstance(strip_versions(RES), Fresh):
+                viol('R-FRESH', 'returns-best-and-all-results', f"grid_search returns {p.last.data.get('value')!r}, not (best, results)", cx.where(fn, p.last.line))
                 continue
-            if arm == 'serial':
-                W = it
-            else:
-                if not (isinstance(it, App) and it.fn.startswith('.') and len(it.args) == 3 and it.fn in ('.imap', '.map', '.imap_unordered')):
-                    viol('R-SIB', 'pool-arm-maps-the-partial', f"grid_search (pool arm) iterates {it!r}", cx.where(fn, lp.line))
-                    continue
-                if it.fn == '.imap_unordered':
-                    viol('R-SIB', 'pool-arm-is-an-ordered-map', "grid_search's pool arm uses imap_unordered: results (and therefore the "
-                         "'first optimum' and the returned list) depend on worker scheduling; it must be an ordered map (imap / map)",
-                         cx.where(fn, lp.line))
-                    continue
-                if it.args[1] != RM:
-                    viol('R-SIB', 'both-arms-use-the-same-callable', f"the pool arm maps {it.args[1]!r}", cx.where(fn, lp.line))
-                    continue
-                W = it.args[2]
-            if not built_list_ok(W, params):
+            r = result_pipeline(cx, fn, paths, p, RES, table)
+            if isinstance(r, str):
+                viol('R-SIB', f"{arm}-arm-appends-every-result-once", f"grid_search ({arm} arm): each combination's result must be kept "
+                     f"exactly once, unconditionally, in order ({r})", cx.where(fn, p.last.line), path=p.lines())
+                continue
+            RM, W = r['F'], r['W']
+            if r['keep'] != 'all':
+                viol('R-SIB', f"{arm}-arm-appends-every-result-once", f"grid_search ({arm} arm): results are kept conditionally",
+                     cx.where(fn, p.last.line), path=p.lines())
+                continue
+            if arm == 'pool' and r['via'] == 'serial':
+                viol('R-SIB', 'pool-arm-maps-the-partial', f"grid_search (pool arm) does not map the partial through the pool", cx.where(fn, p.last.line))
+                continue
+            if r['via'] == '.imap_unordered':
+                viol('R-SIB', 'pool-arm-is-an-ordered-map', "grid_search's pool arm uses imap_unordered: results (and therefore the "
+                     "'first optimum' and the returned list) depend on worker scheduling; it must be an ordered map (imap / map)",
+                     cx.where(fn, p.last.line))
+                continue
+            if not built_list_ok(W, params, p.cond):
                 viol('R-GUARD', 'evaluates-the-built-product-list', f"grid_search ({arm} arm) consumes {W!r}, not the built product list",
-                     cx.where(fn, lp.line))
-                continue
-            bounds = [evs.index(e) for e in iters] + [evs.index(ends[-1])] if ends else []
-            okk = True
-            for k, it_ev in enumerate(iters):
-                seg = evs[bounds[k]:bounds[k + 1]]
-                v = it_ev.data['info'].get('var')
-                if arm == 'serial':
-                    calls = [e for e in seg if e.kind == 'call' and e.data.get('via') == 'partial' and e.data.get('args') == (v,)]
-                    res = calls[0].data.get('result') if len(calls) == 1 else None
-                else:
-                    res = v
-                apps = [e for e in seg if e.kind == 'store' and strip_versions(e.data.get('target')) == RES]
-                conds = [e for e in seg if e.kind == 'cond']
-                if res is None or len(apps) != 1 or apps[0].data.get('store') != 'append' or apps[0].data.get('args') != (res,) or conds:
-                    viol('R-SIB', f"{arm}-arm-appends-every-result-once", f"grid_search ({arm} arm): each combination's result must be appended "
-                         f"exactly once, unconditionally, in order", cx.where(fn, it_ev.line), path=p.lines())
-                    okk = False
-                    break
-            if not okk:
+                     cx.where(fn, p.last.line))
                 continue
             facts[arm].add((repr(RM), repr(W)))
             pb = partial_binding(cx, fn, RM, Sym('<item>'))
@@ -356,6 +345,33 @@ def _arms(cx: Cx):
 
 
 # ------------------------------------------------------------------------------------------------ worker
+def _is_model_term(t, cls_s, kw_s) -> bool:
+    t = strip_versions(t)
+    return t in (App('call', (cls_s,), (('**', kw_s),)), App('new:' + CORE + 'Model', (), (('**', kw_s), ('<cls>', cls_s))))
+
+
+def _one_scored_run(seg, result, cls_s, kw_s, score_s):
+    """In the events of one repetition: exactly one model built as model_cls(**parameters), exactly one score_func(model)
+    call on THAT model, and `result` is that call's value.  Returns an error string or None."""
+    built = []
+    for e in seg:
+        if e.kind == 'call' and _is_model_term(e.data.get('result'), cls_s, kw_s) and strip_versions(e.data.get('result')) not in built:
+            built.append(strip_versions(e.data.get('result')))
+        if e.kind == 'assign' and _is_model_term(e.data.get('value'), cls_s, kw_s) and strip_versions(e.data.get('value')) not in built:
+            built.append(strip_versions(e.data.get('value')))
+    sc = [e for e in seg if e.kind == 'call' and e.data.get('target_kind') == 'unknown' and e.data.get('func_term') == score_s]
+    if len(sc) != 1:
+        return f"{len(sc)} score_func call(s) in one repetition"
+    args = tuple(strip_versions(a) for a in sc[0].data.get('args', ()))
+    if len(args) != 1 or sc[0].data.get('kw') or not _is_model_term(args[0], cls_s, kw_s):
+        return f"score_func is called with {sc[0].data.get('args')!r}, not the model built from this combination in this repetition"
+    if len(built) != 1 or args[0] != built[0]:
+        return f"{len(built)} model(s) built in the repetition that calls score_func: every repetition needs its own fresh model"
+    if strip_versions(result) != strip_versions(sc[0].data.get('result')):
+        return f"the recorded value {result!r} is not score_func(model)"
+    return None
+
+
 def _worker(cx: Cx):
     fn = cx.fn(RUN)
     check_driver_loop(cx, fn, ['model_cls', 'parameters'])
@@ -363,51 +379,88 @@ def _worker(cx: Cx):
     par = Sym('parameters')
     okall = True
     n = 0
-    for p in cx.walker.paths(fn, WalkOptions(unroll=2, callee_raises=False)):
-        if p.end == 'raise':
-            continue
+    from .common import list_facts, _loop_stage_table
+    paths = [p for p in cx.walker.paths(fn, WalkOptions(unroll=2, callee_raises=False)) if p.end != 'raise']
+    table = _loop_stage_table(paths)
+    ranges = (App('range', (reps,)), App('range', (Num(Fraction(0)), reps)))
+    where = cx.where(fn)
+    for p in paths:
         n += 1
         evs = p.events
-        outer = [e for e in evs if e.kind == 'loop' and not e.loops]
-        if len(outer) != 1 or outer[0].data.get('iter') not in (App('range', (reps,)), App('range', (Num(Fraction(0)), reps))):
-            cx.violation('R-ITER', fn.qualname, 'one-run-per-repetition', f"_run_model_for_search must loop range(repetitions) "
-                         f"(found {[repr(e.data.get('iter')) for e in outer]})", where=cx.where(fn))
-            okall = False
-            break
-        lp = outer[0]
-        iters = [e for e in evs if e.kind == 'iter' and e.node is lp.node]
-        ends = [e for e in evs if e.kind == 'endloop' and e.node is lp.node]
-        if any(e.data.get('how') != 'exhausted' for e in ends):
-            cx.violation('R-ITER', fn.qualname, 'one-run-per-repetition', "the repetition loop is left early", where=cx.where(fn, lp.line))
-            okall = False
-            break
-        bounds = [evs.index(e) for e in iters] + [evs.index(ends[-1])]
-        recs = None
-        for k in range(len(iters)):
-            seg = evs[bounds[k]:bounds[k + 1]]
-            models = [e.data.get('value') for e in seg if e.kind == 'assign' and e.data.get('name') == 'model']
-            sc = [e for e in seg if e.kind == 'call' and e.data.get('target_kind') == 'unknown' and e.data.get('func_term') == Sym('score_func')]
-            apps = [e for e in seg if e.kind == 'store' and e.data.get('store') == 'append' and e.data.get('root_kind') == 'fresh']
-            if not (len(models) == 1 and len(sc) == 1 and sc[0].data.get('args') == (models[0],) and len(apps) == 1 and
-                    apps[0].data.get('args') == (sc[0].data.get('result'),)):
-                cx.violation('R-GUARD', fn.qualname, 'one-score-of-own-model-per-repetition',
-                             "each repetition must build one model and append exactly one score_func(model) of THAT model to the records",
-                             where=cx.where(fn, iters[k].line), path=p.lines())
-                okall = False
-                break
-            recs = apps[0].data.get('target')
-        if not okall:
-            break
-        stores = [e for e in evs if e.kind == 'store' and e.data.get('root') == par]
+        stores = [e for e in evs if e.kind == 'store' and strip_versions(e.data.get('root')) == par]
         v = p.last.data.get('value') if p.end == 'return' else None
-        if iters and not (len(stores) == 1 and stores[0].data.get('store') == 'setitem' and stores[0].data.get('key') == Const('records')
-                          and strip_versions(stores[0].data.get('value')) == strip_versions(recs) and v == par):
+        if not (len(stores) == 1 and stores[0].data.get('store') == 'setitem' and stores[0].data.get('key') == Const('records') and v == par):
             cx.violation('R-GUARD', fn.qualname, 'adds-only-the-records-key',
                          f"_run_model_for_search must return the combination with only the key 'records' added (stores: "
-                         f"{[(e.data.get('store'), repr(e.data.get('key'))) for e in stores]}, returns {v!r})", where=cx.where(fn), path=p.lines())
+                         f"{[(e.data.get('store'), repr(e.data.get('key'))) for e in stores]}, returns {v!r})", where=where, path=p.lines())
             okall = False
             break
-    cx.floor('_run_model_for_search paths', n, 2)
+        recs = strip_versions(stores[0].data.get('value'))
+        lf = list_facts(paths, p, recs, lambda s: strip_versions(s) in ranges, table) if isinstance(recs, Fresh) else None
+        if lf is None or not lf.ok or lf.key is not None:
+            cx.violation('R-ITER', fn.qualname, 'one-run-per-repetition', f"_run_model_for_search must record one score per "
+                         f"repetition of range(repetitions) ({lf.err if lf is not None else repr(recs)})", where=where)
+            okall = False
+            break
+        if lf.base_src is None:
+            # the repetition loop is not entered on this path: nothing recorded
+            if any(e.kind == 'loop' and strip_versions(e.data.get('iter')) in ranges for e in evs):
+                continue
+            cx.violation('R-ITER', fn.qualname, 'one-run-per-repetition', "_run_model_for_search must loop range(repetitions)", where=where)
+            okall = False
+            break
+        if lf.cond != FTrue or lf.stages != 1:
+            cx.violation('R-ITER', fn.qualname, 'one-run-per-repetition', f"a repetition's score is recorded only under [{lf.cond!r}]",
+                         where=where)
+            okall = False
+            break
+        elem = lf.elem
+        helper = cx.prog.functions.get(elem.fn[5:]) if isinstance(elem, App) and elem.fn.startswith('call:') else None
+        err = None
+        if helper is not None:
+            # one repetition was factored out into a helper: its returning paths are the repetition
+            b = _Ctx(cx.walker, fn, WalkOptions()).bind_args(helper, None, list(elem.args), dict(elem.kw), State(), False)
+            inv = {}
+            for k, t in (b or {}).items():
+                if isinstance(t, Sym) and t.name in ('model_cls', 'parameters', 'score_func'):
+                    inv[t.name] = Sym(k)
+            if b is None or len(inv) != 3:
+                err = f"the per-repetition helper {helper.name} does not receive model_cls, parameters and score_func unchanged"
+            else:
+                hps = [q for q in cx.walker.paths(helper, WalkOptions(unroll=2, callee_raises=False)) if q.end != 'raise']
+                if not hps:
+                    err = f"{helper.name} has no returning path"
+                for q in hps:
+                    rv = q.last.data.get('value') if q.end == 'return' else Const(None)
+                    err = err or _one_scored_run(q.events, rv, inv['model_cls'], inv['parameters'], inv['score_func'])
+        else:
+            # the repetition is the iteration of the filling loop / comprehension on this path
+            lps = [e for e in evs if e.kind == 'loop' and strip_versions(e.data.get('iter')) in ranges]
+            segs = []
+            if len(lps) == 1:
+                lp = lps[0]
+                iters = [e for e in evs if e.kind == 'iter' and e.node is lp.node]
+                ends = [e for e in evs if e.kind == 'endloop' and e.node is lp.node]
+                bounds = [evs.index(e) for e in iters] + [evs.index(ends[-1]) if ends else len(evs)]
+                for k in range(len(iters)):
+                    seg = evs[bounds[k]:bounds[k + 1]]
+                    apps = [e for e in seg if e.kind == 'store' and e.data.get('store') == 'append' and strip_versions(e.data.get('target')) == recs]
+                    if len(apps) != 1:
+                        err = err or f"{len(apps)} scores recorded in one repetition"
+                    else:
+                        err = err or _one_scored_run(seg, apps[0].data.get('args', (None,))[0], Sym('model_cls'), par, Sym('score_func'))
+            elif isinstance(recs, Fresh) and recs.kind == 'listcomp':
+                seg = [e for e in evs if e.loops and e.loops[-1] == recs.site or (e.loops and recs.site in e.loops)]
+                err = _one_scored_run(seg, elem, Sym('model_cls'), par, Sym('score_func'))
+            else:
+                err = f"{len(lps)} loops over range(repetitions)"
+        if err:
+            cx.violation('R-GUARD', fn.qualname, 'one-score-of-own-model-per-repetition',
+                         f"each repetition must build one model and record exactly one score_func(model) of THAT model ({err})",
+                         where=where, path=p.lines())
+            okall = False
+            break
+    cx.floor('_run_model_for_search paths', n, 1)
     if okall and n:
         cx.ok('R-GUARD', '_run_model_for_search: range(repetitions), fresh model and one score per repetition, only `records` added',
               where=cx.where(fn), function=fn.qualname)
